@@ -207,6 +207,14 @@ def upcase(text):
     return "".join(out)
 
 
+def link_line(base, h):
+    """the harness '.link': a base in the upper half of the address space is written as a negative number in every other program
+    ('.link -2' is '.link 177776': the operand is a signed 16-bit value)"""
+    if base >= 32768 and h % 2 == 1:
+        return "\t.link -%o" % (65536 - base)
+    return "\t.link %o" % base
+
+
 def render(files, inc, base=None, late=None, vary_case=False):
     """-> (sources [(name, text)], fs dict or None).  base: harness link base (a `.link` the harness adds).
     Rendering choices that do not change the meaning are varied deterministically with the program: the harness `.link` stands
@@ -265,7 +273,7 @@ def render(files, inc, base=None, late=None, vary_case=False):
             continue
         lines = []
         if i == 0 and base is not None and link_at == "start":
-            lines.append("\t.link %o" % base)
+            lines.append(link_line(base, h))
         mid = None
         # "midsym": the base is written as a symbol that the first file defines at its end (so the directive cannot be computed
         # when it is met); only when that end is reached, i.e. the file has no '.end'
@@ -274,7 +282,7 @@ def render(files, inc, base=None, late=None, vary_case=False):
             stop = next((q for q, s in enumerate(f) if s["k"] == "end"), len(f))
             mid = (1 + h % stop) if stop else 0
             if mid == 0:
-                lines.append("\t.link %o" % base if not symlink else "\t.link hbase9")
+                lines.append(link_line(base, h) if not symlink else "\t.link hbase9")
         consts, blocked = set(), False
         for q, s in enumerate(f):
             if (s["k"] == "word" and len(s["es"]) == 1 and s["es"][0]["t"] == "sym" and s["es"][0]["n"] in consts and not blocked
@@ -290,13 +298,13 @@ def render(files, inc, base=None, late=None, vary_case=False):
                 blocked = blocked or s["k"] != "label" or s["n"] in consts       # keep to the plain case: nothing else could name it
                 consts.discard(s.get("n"))
             if mid is not None and q + 1 == mid:
-                lines.append("\t.link %o" % base if not symlink else "\t.link hbase9")
+                lines.append(link_line(base, h) if not symlink else "\t.link hbase9")
             if symlink and s["k"] == "end":
                 symlink = False
         if symlink:
             lines.append("hbase9 = %o" % base)
         if i == len(files) - 1 and base is not None and link_at == "end":
-            lines.append("\t.link %o" % base)
+            lines.append(link_line(base, h))
         text = "\n".join(spell_ends(lines, h + i)) + "\n"
         if vary_case and (h + i) % 2 == 1:
             text = upcase(text)           # every other file spells everything in upper case (names are case-insensitive)
